@@ -4,7 +4,9 @@
 use std::{env, fs, path::Path};
 
 fn main() {
-    let src = "/repo/codegen/res/svg_colors.txt";
+    let repo = env::var("VERIF_REPO").unwrap_or_else(|_| "/repo".to_string());
+    let src = &format!("{}/codegen/res/svg_colors.txt", repo);
+    println!("cargo:rerun-if-env-changed=VERIF_REPO");
     println!("cargo:rerun-if-changed={}", src);
     let text = fs::read_to_string(src).expect("svg_colors.txt");
     let mut out = String::from("pub const NAMED: &[(&str, [u8; 3], palette::Srgb<u8>)] = &[\n");
